@@ -94,6 +94,7 @@ size_t approxBytesAllocatedSmallBufferImpl(size_t ordinal) {
 
 template <size_t kChunkSize>
 SmallBufferAllocator<kChunkSize>::PerThreadQueuingData::~PerThreadQueuingData() {
+  DISPENSO_VERIF_SBA_POINT("sba.exit.enqueue", buffers_);
   enqueue_bulk(buffers_, count_);
 
   DISPENSO_TSAN_ANNOTATE_IGNORE_WRITES_BEGIN();
